@@ -8,7 +8,12 @@ instant 0, context `Done` closing at `ctxAt`) one the model allows?
 Ticker lines drive a state-set engine over the JitterTicker LTS (quiescent-trace inclusion): the set
 of model states compatible with the observations so far is kept; `reject` = the set became empty.
 `new d j ok|panic`, `adv dt` (clock runs, virtual-time urgency), `settle` (= `synctest.Wait()`),
-`poll tick T|empty`, `reset d j ok|panic`, `stop ok|panic`. -/
+`poll tick T|empty`, `reset d j ok|panic`, `stop ok|panic`.
+
+The values of the random source are enumerated completely for the small jitters of the model-checked
+scripts; for large jitter (`Model.XTime.randChoices`) only the two ends of the range are tried, which
+is sound for scripts that let no virtual time pass (the int64-boundary scripts: panic or not, and no
+tick without delay). -/
 namespace Juniper.Driver.C20
 open Juniper.Driver Juniper.Model.XTime Juniper.Gen.XTime
 
